@@ -17,7 +17,7 @@ CHECKS = {
             "Texts built from corpus dates of the requested language, filler and mutated punctuation, for every language explicitly, multi-language and autodetect: no exception, None or non-empty list, tuple arity, non-blank in-text substrings in text order, datetime values, language element among the requested.",
             "Valid language codes only; frozen clock.", "DESIGN.md §4 C17"),
     "C20": ("exploration", "harness-owned thread schedules (sys.settrace preemption of A at its k-th library line, B to completion) enumerated over distinct lines and drawn by Hypothesis; oracle = results of the same calls alone",
-            "28 call pairs (incl. error-path calls, same-locale multi-token pairs and a calendar/parse pair) x 2 directions x {warm, cold start} x preemption at the first occurrence of every distinct (file, line, calling context) the preempted call executes + random k; every schedule in a forked child from a per-pair zygote; lock-holding callback points are detected and counted as infeasible. Six recorded findings (three root causes: shared Settings, shared Locale dictionary, search RELATIVE_BASE; no locking), each keyed by pair, direction, side and wrong outcome.",
+            "30 call pairs (incl. error-path calls, same-locale multi-token pairs, small-CACHE_SIZE_LIMIT pairs and a calendar/parse pair) x 2 directions x {warm, cold start} x preemption at the first occurrence of every distinct (file, line, calling context) the preempted call executes + random k; every schedule in a forked child from a per-pair zygote; lock-holding callback points are detected and counted as infeasible. Six recorded findings (three root causes: shared Settings, shared Locale dictionary, search RELATIVE_BASE; no locking), each keyed by pair, direction, side and wrong outcome.",
             "One preemption, run-to-completion schedules only (the property's own quantifier); real threads, deterministic given k.", "DESIGN.md §4 C20"),
     "C04": ("exploration", "property-based testing (Hypothesis) against an independent calendar-arithmetic oracle; thorough adds an exhaustive units x n x direction x base grid",
             "Generated phrases (1-3 units, counts 0..5000, decimals, fixed words, clock times, RETURN_TIME_AS_PERIOD) over boundary-biased bases given as RELATIVE_BASE or frozen clock, compared with integer month arithmetic + exact timedelta written in the harness (no relativedelta); implicit-now stage against pytz for TIMEZONE/TO_TIMEZONE pairs.",
@@ -53,7 +53,7 @@ CHECKS = {
             "Formats built from distinct directives (plus ~40 hand-listed shapes) x datetimes 1900-2100 rendered by harness code and parsed back with date_formats=[fmt] under a frozen clock and preference pairs; every single-meaning month/weekday name of every language in 3+2 formats; raw-match precedence cases. 52 localised-name findings share root causes with C05.",
             "Frozen system clock for the missing year/current day; year-less %j and day-without-month formats are not generated (ambiguous).", "DESIGN.md §4 C14"),
     "C15": ("exploration", "exhaustive calendar walk (thorough) / month boundaries + Hypothesis sampling (quick), differential against the conversion libraries, an independent arithmetic Jalali algorithm and day-consecutiveness",
-            "Jalali 1200-1500 and Hijri 1343-1500 dates in numeric, named-month, Persian-digit, weekday, spelled-day and time spellings parsed by JalaliCalendar/HijriCalendar and compared with convertdate/hijridate called directly; arithmetic Jalali oracle admitted per year by a self-check; next-day consecutiveness at month ends; the first/last two years of each range are walked in every numeric spelling (incl. day-first).",
+            "Jalali 1200-1500 and Hijri 1343-1500 dates in numeric, named-month, Persian-digit, weekday, spelled-day and time spellings parsed by JalaliCalendar/HijriCalendar and compared with convertdate/hijridate called directly; arithmetic Jalali oracle admitted per year by a self-check; next-day consecutiveness at month ends; the first/last two years of each range are walked in every numeric spelling (incl. day-first); every spelled-out day word x every listed month spelling is enumerated.",
             "convertdate/hijridate are the reference conversions; valid unambiguous dates only.", "DESIGN.md §4 C15"),
     "C18": ("exploration", "metamorphic property-based testing (Hypothesis): whitespace rewritings and all Unicode Nd digit blocks vs the base parse; enumerated corpus walk (quick: all whitespace rewritings + two digit blocks per string, thorough: all blocks)",
             "Corpus strings and generated dates in every language: 9 whitespace rewritings and every decimal-digit script (enumerated from unicodedata) must give the same (date, period) as the base string, with a fixed language or autodetection.",
@@ -62,7 +62,7 @@ CHECKS = {
             "All 205 modules are regenerated with the repository's own generator and compared byte for byte; all 773 timezone entries and both search regexes are rebuilt and compared with the pickle and the imported table; every index entry is checked (exhaustive: true). A generated differential drives pop_tz_offset_from_string with both tables.",
             "Vendored pure-Python PyYAML with a YAML-1.2 resolver shim stands in for ruamel.yaml (validated by byte-for-byte reproduction).", "DESIGN.md §4 C16"),
     "C19": ("fault_enumeration", "fault injection over every truncation point of the cache file (enumerated; Hypothesis for junk contents) with table-equality oracle, validated by real interpreter imports",
-            "Every prefix length of the cache (thorough: all 134 537; quick: boundaries + opcode boundaries + every byte inside every FRAME header and inside first/last/seeded instances of every opcode kind + seeded sample), missing file, wrong-shape pickles and generated junk are injected into a copy; load must succeed, yield the source-defined table, leave a complete cache on disk and take the fast path next time. A subset is re-run as real `import dateparser` subprocesses.",
+            "Every prefix length of the cache (thorough: all 134 537; quick: boundaries + opcode boundaries + every byte inside every FRAME header and inside first/last/seeded instances of every opcode kind + seeded sample), missing file, wrong-shape pickles, generated junk and crashes inside the library's own cache write (a forked child dies after a byte budget or at the final rename) are injected into a copy; load must succeed, yield the source-defined table, leave a complete cache on disk and take the fast path next time. A subset is re-run as real `import dateparser` subprocesses.",
             "Interrupted/concurrent writes leave a prefix of the file; directory writable.", "DESIGN.md §4 C19"),
 }
 NOT_APPLICABLE = []
